@@ -43,6 +43,9 @@ def base_scenarios(rng, tier):
             {"name": "o2", "kind": "sys", "inputs": {}, "expose": {}, "components": [dev("deep", cb={"kind": "period", "p": 2 * P}, cost=100_000), dev("deepq", cost=100_000)]},
             dev("mid", cost=100_000)]}, dev("top", cb={"kind": "period", "p": P}, cost=100_000)], "n_ticks": 3},
     ]
+    # other speeds: the stamp converts real to simulation time
+    for sp in ([1, 2], [2, 1]):
+        out.append({"components": [dev("far", cb={"kind": "period", "p": 50 * P}), dev("x", cost=100_000), dev("y", {"i": ["x", "o"]}, cost=100_000)], "n_ticks": 2, "speed": sp})
     if tier == "thorough":
         for _ in range(6):
             scn = S.gen_nested(rng, depth=2, max_n=5)
